@@ -374,10 +374,10 @@ class StmtMixin:
     def loop_spec(self, node, fr):
         if fr.contract is None:
             return None, None
-        ordn = self.loop_ordinals(fr.fi).get(id(node))
+        ordn = self.loop_ordinals(fr.fi, fr.contract).get(id(node))
         return fr.contract.loops.get(ordn), ordn
 
-    def loop_ordinals(self, fi):
+    def loop_ordinals(self, fi, contract=None):
         key = ('loops', fi.qualname)
         if key not in self._ord_cache:
             table = {}
@@ -391,7 +391,13 @@ class StmtMixin:
                     if isinstance(c, (ast.FunctionDef, ast.Lambda, ast.ClassDef)) and c is not fi.node:
                         continue
                     visit(c)
-            visit(fi.node)
+            if contract is not None and contract.slice_names:
+                wanted = set(contract.slice_names)
+                for st in fi.node.body:
+                    if assigned_names([st]) & wanted:
+                        visit(st)
+            else:
+                visit(fi.node)
             self._ord_cache[key] = table
         return self._ord_cache[key]
 
